@@ -308,6 +308,60 @@ func runC12(c *Ctx, r *Rec) {
 	{
 		sms0 := c.methodsOf(st.scanner)
 		bad := ""
+		// the state that is counted in runes: the fields a token's line and column are made from,
+		// and the fields that index or slice the rune array (a byte offset into a text kept
+		// alongside is a byte count by design)
+		runeState := map[*types.Var]bool{}
+		for _, name := range sortedKeys(sms0) {
+			ast.Inspect(sms0[name].Body, func(x ast.Node) bool {
+				switch e := x.(type) {
+				case *ast.CallExpr:
+					if rx, mname, call, ok := methodCall(e); ok && mname == "Make" && len(call.Args) >= 3 {
+						if tn := derefNamed(info.TypeOf(rx)); tn != nil && strings.HasPrefix(tn.Obj().Name(), "Token") {
+							for _, a := range call.Args[:2] {
+								ast.Inspect(resolveInit(info, sms0[name], a), func(y ast.Node) bool {
+									if ye, ok := y.(ast.Expr); ok {
+										if f := selectorField(info, ye); f != nil {
+											runeState[f] = true
+										}
+									}
+									return true
+								})
+							}
+						}
+					}
+				case *ast.IndexExpr, *ast.SliceExpr:
+					var base ast.Expr
+					var idx []ast.Expr
+					if ie, ok := e.(*ast.IndexExpr); ok {
+						base, idx = ie.X, []ast.Expr{ie.Index}
+					} else {
+						se := e.(*ast.SliceExpr)
+						base, idx = se.X, []ast.Expr{se.Low, se.High}
+					}
+					if t := info.TypeOf(base); t != nil {
+						if sl, ok := t.Underlying().(*types.Slice); ok {
+							if bt, ok := sl.Elem().Underlying().(*types.Basic); ok && bt.Kind() == types.Int32 {
+								for _, ix := range idx {
+									if ix == nil {
+										continue
+									}
+									ast.Inspect(ix, func(y ast.Node) bool {
+										if ye, ok := y.(ast.Expr); ok {
+											if f := selectorField(info, ye); f != nil {
+												runeState[f] = true
+											}
+										}
+										return true
+									})
+								}
+							}
+						}
+					}
+				}
+				return true
+			})
+		}
 		for _, name := range sortedKeys(sms0) {
 			fd := sms0[name]
 			ast.Inspect(fd.Body, func(x ast.Node) bool {
@@ -317,7 +371,7 @@ func runC12(c *Ctx, r *Rec) {
 				}
 				toField := false
 				for _, l := range as.Lhs {
-					if selectorField(info, l) != nil {
+					if f := selectorField(info, l); f != nil && (runeState[f] || len(runeState) == 0) {
 						toField = true
 					}
 				}
@@ -490,6 +544,31 @@ func checkScanLoop(c *Ctx, r *Rec, info *types.Info, st *scanTables) {
 		}
 		return true
 	})
+	if adv == nil {
+		// the cursor may be moved by a private method that is handed the length
+		ast.Inspect(fd.Body, func(x ast.Node) bool {
+			call, ok := x.(*ast.CallExpr)
+			if !ok || adv != nil {
+				return true
+			}
+			hd := c.declOf(calleeOf(info, call))
+			if hd == nil || hd.Body == nil || hd == fd || c.infoFor(hd) != info {
+				return true
+			}
+			hps := paramObjs(info, hd)
+			ast.Inspect(hd.Body, func(y ast.Node) bool {
+				if as, ok := y.(*ast.AssignStmt); ok && as.Tok == token.ADD_ASSIGN && len(as.Lhs) == 1 && selectorField(info, as.Lhs[0]) == cursor {
+					for pi, p := range hps {
+						if isObj(info, as.Rhs[0], p) && pi < len(call.Args) {
+							adv, advLen = call, call.Args[pi]
+						}
+					}
+				}
+				return true
+			})
+			return true
+		})
+	}
 	if adv == nil {
 		viol = append(viol, "the matching method never advances the cursor "+cursor.Name())
 	} else {
